@@ -3210,9 +3210,14 @@ def phase_angle(sun_dist, earth_dist, sun_earth_dist):
     if not (isinstance(sun_dist, float) and isinstance(earth_dist, float)
             and isinstance(sun_earth_dist, float)):
         raise TypeError("Invalid input types")
-    angle = acos((sun_dist * sun_dist + earth_dist * earth_dist
-                  - sun_earth_dist * sun_earth_dist)
-                 / (2.0 * sun_dist * earth_dist))
+    cosine = ((sun_dist * sun_dist + earth_dist * earth_dist
+               - sun_earth_dist * sun_earth_dist)
+              / (2.0 * sun_dist * earth_dist))
+    # With the body in line with the Sun and the Earth, rounding may leave the
+    # cosine a few units of the last place outside [-1, 1]
+    if 1.0 < abs(cosine) < 1.0 + 1e-12:
+        cosine = 1.0 if cosine > 0.0 else -1.0
+    angle = acos(cosine)
     angle = Angle(angle, radians=True)
     return angle
 
